@@ -192,9 +192,9 @@ Print Assumptions C05_scbk_sector_bits_partial.
 
 (* scBK, whole path (re-ordering, BK tree, compress, both Z-substitutions with the parities of the vector's
    own sector (n_electrons, spin = n_alpha - n_beta), pruning; vector with two qubits deleted), both
-   orderings, EVERY occupation vector of even length 2..10 — exact arithmetic in Q(zeta_32), exhaustive
+   orderings, EVERY occupation vector of even length 2..8 — exact arithmetic in Q(zeta_32), exhaustive
    computation; the general statement is the same with [S : KS], a sound zero test and any even n.
-   Not proved in general: the Z-substitution / pruning step for n > 10 (steps 1 and 2 above reach n <= 64). *)
+   Not proved in general: the Z-substitution / pruning step for n > 8 (steps 1 and 2 above reach n <= 64). *)
 Definition C05_scbk_statement (S : KS) (kzero : K S -> bool) (n : nat) : Prop :=
   forall (v : vec), length v = n -> forall (utd : bool) (p : nat), (p < n)%nat ->
     exists y q,
@@ -203,7 +203,7 @@ Definition C05_scbk_statement (S : KS) (kzero : K S -> bool) (n : nat) : Prop :=
           [(numop_term (N.of_nat p), k1)] = Ok q /\
       op_elem S q (bits_to_N y) (bits_to_N y) = if nth p v false then k1 else k0.
 Theorem C05_scbk_occupations_partial :
-  forall n, In n [2; 4; 6; 8; 10]%nat -> C05_scbk_statement CycS cy_zero n.
+  forall n, In n [2; 4; 6; 8]%nat -> C05_scbk_statement CycS cy_zero n.
 Proof. exact scbk_reference_occupations_small. Qed.
 Print Assumptions C05_scbk_occupations_partial.
 
